@@ -83,11 +83,13 @@ def check_contraction(init, etr_tab, ex, findings, with_l=True):
 
 def run(repo, R):
     R.rule("INPUTS", "the public wrapper uses its parameters as given: no path replaces one by a filtered/re-ordered/scaled/defaulted copy")
-    from ..flow import check_wrapper_inputs
+    R.rule("DISPATCH", "the wrapper assembles Cartesian, spherical, mixed and transformed results through the four assembly routes, same keywords on each")
+    from ..flow import check_wrapper_inputs, check_wrapper_dispatch
     for _w in ['gbasis.integrals.electron_repulsion.electron_repulsion_integral']:
         _wf = repo.func(_w)
         R.note_function(_wf.qualname)
         check_wrapper_inputs(repo, _wf, R)
+        check_wrapper_dispatch(repo, _wf, R, "DISPATCH")
     R.rule("E0", "start: 2 pi^(5/2)/(zeta eta sqrt(zeta+eta)) F_m(rho |P-Q|^2) exp(-mu_ab|A-B|^2) exp(-mu_cd|C-D|^2)")
     R.rule("Ev", "vertical step [a+1_c,0|00]^m for x, y, z (coefficients (P-A), (rho/zeta)(P-Q), a_c/(2 zeta))")
     R.rule("Et", "electron-transfer step [a, c+1_c] for x, y, z (coefficients (Q-C)+(zeta/eta)(P-A), a_c/(2 eta), c_c/(2 eta), zeta/eta)")
